@@ -8,5 +8,10 @@ git -C /repo worktree add --detach "$d" HEAD >/dev/null 2>&1
 rsync -a --exclude /.git /repo/ "$d"/
 # make the tree self-consistent: absolute paths in generated Makefiles point at /repo
 grep -rl --include=Makefile --include=config.status --include=libtool -e '/repo' "$d" 2>/dev/null | xargs -r sed -i "s#/repo#$d#g"
+# tracked files must be exactly HEAD even if /repo's working tree is being edited right now
+git -C "$d" reset --hard -q HEAD
+# cached per-test build directories carry "succeeded before" stamps and links into /repo:
+# drop them so that the suite really re-runs against this tree
+rm -rf "$d"/tests/tests-c-compiler/test-check-* "$d"/tests/tests-randomized/.tmp.*
 /verif/tools/fixlinks.sh "$d"
 echo "$d"
